@@ -317,7 +317,26 @@ fn run(line: &str) -> String {
     }
 }
 
+
+// watchdog: a request that does not answer within FX_REQ_TIMEOUT_MS (default 20 s) ends the process with status 124;
+// the driver reports it as `abort timeout` for that request and goes on with the next one
+static BUSY_SINCE_MS: std::sync::atomic::AtomicU64 = std::sync::atomic::AtomicU64::new(0);
+fn now_ms() -> u64 {
+    std::time::SystemTime::now().duration_since(std::time::UNIX_EPOCH).map(|d| d.as_millis() as u64).unwrap_or(1)
+}
+fn start_watchdog() {
+    let limit: u64 = std::env::var("FX_REQ_TIMEOUT_MS").ok().and_then(|s| s.parse().ok()).unwrap_or(20000);
+    std::thread::spawn(move || loop {
+        std::thread::sleep(std::time::Duration::from_millis(250));
+        let since = BUSY_SINCE_MS.load(std::sync::atomic::Ordering::Relaxed);
+        if since != 0 && now_ms().saturating_sub(since) > limit {
+            std::process::exit(124);
+        }
+    });
+}
+
 fn main() {
+    start_watchdog();
     std::panic::set_hook(Box::new(|info| {
         let file = info.location().map(|l| l.file().to_string()).unwrap_or_default();
         let msg = if let Some(s) = info.payload().downcast_ref::<&str>() {
@@ -338,7 +357,10 @@ fn main() {
     let mut w = std::io::BufWriter::new(stdout.lock());
     for line in stdin.lock().lines() {
         let line = line.unwrap();
-        writeln!(w, "{}", run(&line)).unwrap();
+        BUSY_SINCE_MS.store(now_ms(), std::sync::atomic::Ordering::Relaxed);
+        let reply = run(&line);
+        BUSY_SINCE_MS.store(0, std::sync::atomic::Ordering::Relaxed);
+        writeln!(w, "{}", reply).unwrap();
         w.flush().unwrap();
     }
 }
